@@ -255,6 +255,13 @@ def run_case(case):
                 if want not in got:
                     res.violate((backend, 'compdb-argv-differs', m.steps[sid]['kind']),
                                 dict(wb, step=sid, compdb=got, ran=want))
+                # the environment the entry sets for the step is the one the step ran with
+                ran_env = rec['env'].get('VF_E')
+                if ran_env is not None or env.get('VF_E') is not None:
+                    res.ev('compdb-env-compared')
+                    if env.get('VF_E') != ran_env:
+                        res.violate((backend, 'compdb-env-differs', m.steps[sid]['kind']),
+                                    dict(wb, step=sid, compdb=env.get('VF_E'), ran=ran_env))
                 if os.path.normpath(e['directory']) != os.path.normpath(rec['cwd']):
                     res.violate((backend, 'compdb-directory-differs'),
                                 dict(wb, step=sid, compdb=e['directory'], ran=rec['cwd']))
